@@ -331,6 +331,20 @@ Theorem C19_third_law_boundary_refuted :
   ~ sum3 3 1 1 (fun i j k => r i j k * field (3, 1, 1)%nat (1, 1, 1) 1 0 (potential (3, 1, 1)%nat 1 G r) i j k) == 0.
 Proof. exact third_law_boundary_refuted. Qed.
 
+(* ---------------- F51 (genuine defect): the code's grid nodes are not mirror symmetric about the axis.  With cell_size = 2 gd / n
+   (the code's rule: cx * n == 2 dx) the mirror image of normalized position u is n - u, so node 0 is mapped to the missing node n ... *)
+Theorem C19_code_grid_mirror_image : forall dx cx n x, ~ cx == 0 -> cx * n == 2 * dx -> (x + dx) * / cx + (- x + dx) * / cx == n.
+Proof. exact nrm_mirror. Qed.
+
+(* ... and a charge in the top cell loses part of its charge on deposit while its mirror partner in the bottom cell does not
+   (half extent 1, 4 points, cell 1/2; unit charges at x = +7/8 and x = -7/8, both inside [-1, 1]) *)
+Theorem C19_code_grid_not_mirror_symmetric_refuted :
+  let g := mkgeom (1, 1, 1) (1 # 2, 1 # 2, 1 # 2) (4, 4, 4)%Z in
+  let up := mksp (7 # 8) 0 0 0 0 0 1 1 in
+  let dn := mksp (- (7 # 8)) 0 0 0 0 0 1 1 in
+  sumQ (map (contrib g up) (all_idx (g_shape g))) == 1 # 4 /\ sumQ (map (contrib g dn) (all_idx (g_shape g))) == 1.
+Proof. exact code_grid_not_mirror_symmetric_refuted. Qed.
+
 (* non-vacuity: the model's pipeline on a 2x1x1 grid with G(0) = 5, G(1) = 3 and density (1, 2): potential (5 + 6, 3 + 10) *)
 Example C19_hockney_nonvacuous :
   let G : grid := fun a _ _ => if (a =? 0)%nat then 5 else 3 in
@@ -380,6 +394,8 @@ Print Assumptions C19_hockney_force_centre_plane_x.
 Print Assumptions C19_hockney_third_law_x.
 Print Assumptions C19_third_law_boundary_refuted.
 Print Assumptions C19_hockney_nonvacuous.
+Print Assumptions C19_code_grid_mirror_image.
+Print Assumptions C19_code_grid_not_mirror_symmetric_refuted.
 Print Assumptions C19_integrated_potential_odd.
 Print Assumptions C19_igf_depends_on_abs_offsets.
 Print Assumptions C19_lorentz_cancellation.
